@@ -1,5 +1,5 @@
 import FxVerif.Proofs.C20Fee
-import FxVerif.Model.C20
+import FxVerif.Proofs.C20Dec
 /-!
 # C20 — hostile input never crashes a node and cannot dodge the minimum fee
 
@@ -7,7 +7,7 @@ Property theorems only.  `Gen/C20.lean` (the fee rule, translated from the Go AS
 `Gen/C20Sites.lean` (inventory of potentially panicking constructs) are regenerated from `/repo` on every run.
 -/
 namespace FxVerif.Props.C20
-open FxVerif.Model.C20Base FxVerif.Gen.C20 FxVerif.Proofs.C20Fee FxVerif.Gen.C20Sites FxVerif.Model.C20
+open FxVerif.Model.C20Base FxVerif.Gen.C20 FxVerif.Proofs.C20Fee FxVerif.Gen.C20Sites FxVerif.Model.C20 FxVerif.Proofs.C20Dec
 
 /-! ## the translator understood everything it read -/
 
@@ -198,6 +198,14 @@ theorem huge_gas_never_admitted (ctf : CheckTxFeees) (msgs : List String) (gas :
       | some r => exact hall r (List.mem_of_find?_eq_some hf)
 
 
+-- non-vacuity: the hypotheses of `below_min_refused` / `checktx_accept_iff_ceil` are satisfiable and the boundary is sharp
+example : checkTxFee ⟨["/a"], 300000⟩ true true ["/b"] 200000 [⟨"FX", 199999⟩] [⟨"FX", 1000000000000000000⟩] = .refuse := by decide
+example : checkTxFee ⟨["/a"], 300000⟩ true true ["/b"] 200000 [⟨"FX", 200000⟩] [⟨"FX", 1000000000000000000⟩] = .accept := by decide
+example : checkTxFee ⟨["/a"], 300000⟩ true true ["/a"] 300000 [] [⟨"FX", 1000000000000000000⟩] = .accept := by decide
+example : checkTxFee ⟨["/a"], 300000⟩ true true ["/a"] 300001 [] [⟨"FX", 1000000000000000000⟩] = .refuse := by decide
+example : checkTxFee ⟨[], 0⟩ true true ["/a"] 3 [⟨"FX", 1⟩] [⟨"FX", 333333333333333333⟩] = .accept := by decide   -- ⌈0.999…⌉ = 1
+example : checkTxFee ⟨[], 0⟩ true true ["/a"] (2 ^ 63) [⟨"FX", 1⟩] [⟨"FX", 1⟩] = .panic := by decide
+
 /-! ## panic-freedom of stateless validation, ante and argument decoding: the regenerated inventory -/
 
 /-- **obligation over the regenerated table**: every potentially panicking construct in the fx-core functions reachable
@@ -264,31 +272,6 @@ theorem validateEthereumAddress_spec (ck : List Char → Bool) (a : List Char) :
   · by_cases h1 : a.length = 42 <;> by_cases h2 : a.take 2 = ['0', 'x'] <;>
       by_cases h3 : (a.drop 2).all isHexChar = true <;> by_cases h4 : ck a = true <;> simp [h0, h1, h2, h3, h4]
 
-/-- "if classified as IBC then `IBCValidate` holds" -/
-def IbcOk (r : FxTarget) : Prop := r.isIBC = true → ibcValidate r = true
-
-theorem plainTarget_ok (t : List Char) : IbcOk (plainTarget t) := by
-  intro h; cases h
-
-theorem checkedTarget_ok (ft : FxTarget) (fb : List Char) : IbcOk (checkedTarget ft fb) := by
-  unfold checkedTarget
-  split
-  · intro _; assumption
-  · exact plainTarget_ok fb
-
-theorem threeParts_ok (t : List Char) : IbcOk (threeParts t) := by
-  unfold threeParts
-  split
-  · exact checkedTarget_ok _ _
-  · exact plainTarget_ok t
-
-theorem ibcPrefixed_ok (t : List Char) : IbcOk (ibcPrefixed t) := by
-  unfold ibcPrefixed
-  split
-  · exact checkedTarget_ok _ _
-  · exact threeParts_ok _
-  · exact plainTarget_ok t
-
 /-- whatever `ParseFxTarget` classifies as an IBC target satisfies `IBCValidate`: port `transfer`, a well-formed channel
 identifier, a non-blank prefix — for every input string -/
 theorem parseFxTarget_ibc_valid (s : List Char) (h : (parseFxTarget s).isIBC = true) :
@@ -305,10 +288,9 @@ theorem parseFxTarget_ibc_valid (s : List Char) (h : (parseFxTarget s).isIBC = t
         · exact threeParts_ok _
   exact key h
 
-/-- a non-IBC result carries the (prefix-trimmed) input or one of the two fixed module names: nothing is invented -/
-theorem parseFxTarget_total (s : List Char) :
-    (parseFxTarget s).isIBC = true ∨ (parseFxTarget s).isIBC = false := by
-  cases (parseFxTarget s).isIBC <;> simp
+example : (parseFxTarget "ibc/0/px".toList).isIBC = true := by decide
+example : (parseFxTarget "px/transfer/channel-18446744073709551616".toList).isIBC = false := by decide
+example : strToByte32 [1, 2, 3] = .ok ([1, 2, 3] ++ List.replicate 29 0) := rfl
 
 theorem ibcValidate_format (t : FxTarget) (h : ibcValidate t = true) :
     t.sourcePort = "transfer".toList ∧ isValidChannelID t.sourceChannel = true ∧ ¬ (t.pfx.all isSpace = true) := by
